@@ -125,6 +125,24 @@ package driver
 //@   ensures [C12] err == nil ==> r != nil
 //@   ensures [C11,C12] statement_is_reusable: stmt.q == old(stmt.q) && ptOK(stmt.q.Expr) && IdxInv(stmt.c.idx) && stmt.c.idx.mtx.held == 0
 
+// database/sql's statement path: every argument becomes one string, in order, then the path above is used
+//@ func [C11,C12] (*fileStmt).Query(stmt, args) (r, err)
+//@   requires stmt != nil && stmt.q != nil && ptOK(stmt.q.Expr) && stmt.c != nil && IdxInv(stmt.c.idx) && stmt.c.idx.mtx.held == 0
+//@   modifies heap list.List.stamp; heap list.List.clock; heap list.List.members; heap updog.CounterMetric.count; heap updog.LRUCache.curSize
+//@   modifies heap map[uint64]*list.Element; heap dom[uint64]*list.Element; heap updog.lruCacheItem.bm; heap updog.lruCacheItem.size; heap updog.HistogramMetric.obs
+//@   modifies heap sync.Mutex.held
+//@   ensures [C11] too_few_arguments_is_an_error: (exists x *updogv1.Query_Expression_Equal :: leafOf(x, stmt.q.Expr) && x.Placeholder > len(args)) ==> err != nil
+//@   ensures [C12] err != nil ==> r == nil
+//@   ensures [C12] err == nil ==> r != nil
+//@   ensures [C11,C12] statement_is_reusable: stmt.q == old(stmt.q) && ptOK(stmt.q.Expr) && IdxInv(stmt.c.idx) && stmt.c.idx.mtx.held == 0
+//@   loop 1
+//@     invariant one_string_per_argument: 0 <= $i && len(values) == $i && (arr(values) == nil || !(arr(values) in old($alloc)))
+
+// the number database/sql checks the argument count against is the highest placeholder of the prepared tree
+//@ func [C11] (*fileStmt).NumInput(stmt) (result)
+//@   requires stmt != nil && stmt.q != nil && ptOK(stmt.q.Expr)
+//@   ensures [C11] covers_every_placeholder: result >= 0 && (forall x *updogv1.Query_Expression_Equal :: leafOf(x, stmt.q.Expr) ==> x.Placeholder <= result)
+
 // the direct Query path of database/sql: arguments arrive with 1-based ordinals (database/sql numbers them), the
 // argument list is rebuilt by ordinal, then the statement path above is used
 //@ func [C11,C12] (*fileConn).QueryContext(c, ctx, query, args) (r, err)
